@@ -346,6 +346,8 @@ type wireResp struct {
 	Payload json.RawMessage `json:"payload"`
 	Error   json.RawMessage `json:"error"`
 	IsFinal bool            `json:"is_final"`
+	// rawMulti: whether the payload as handed over by cli.Bulk (before any re-encoding) spans lines
+	rawMulti *bool
 }
 
 func (w *wireResp) hasError() bool { return len(w.Error) > 0 && string(w.Error) != "null" }
@@ -354,7 +356,62 @@ func toWire(r *cli.BulkResponse) wireResp {
 	var w wireResp
 	b, _ := json.Marshal(r)
 	_ = json.Unmarshal(b, &w)
+	m := bytes.Contains(bytes.TrimSpace(r.Payload), []byte("\n"))
+	w.rawMulti = &m
 	return w
+}
+
+// standaloneDirect executes the request through the internal/cli function itself (not
+// through Bulk). "" means: not applicable for this request.
+func standaloneDirect(rq *bulkReq, defKey int) (out string) {
+	pl, ok := rq.Payload.(map[string]any)
+	if !ok || rq.Raw != nil {
+		return ""
+	}
+	data, _ := pl["data"].([]byte)
+	if data == nil {
+		return ""
+	}
+	defer func() {
+		if r := recover(); r != nil {
+			out = ""
+		}
+	}()
+	ctx := context.Background()
+	norm := func(v any, err error) string {
+		if err != nil {
+			ce, ok := err.(*cli.Error)
+			if !ok {
+				return ""
+			}
+			b, _ := json.Marshal(ce)
+			return normPayload(rq.Action, nil, b)
+		}
+		b, _ := json.Marshal(v)
+		return normPayload(rq.Action, b, nil)
+	}
+	switch rq.Action {
+	case "build":
+		env, _ := pl["envelop"].(bool)
+		r, err := cli.Build(ctx, &cli.BuildOptions{ParseOptions: &cli.ParseOptions{Input: bytes.NewReader(data), Envelop: env}})
+		return norm(r, err)
+	case "validate":
+		if err := cli.Validate(ctx, bytes.NewReader(data)); err != nil {
+			return norm(nil, err)
+		}
+		return `{"ok":true}`
+	case "replicate":
+		r, err := cli.Replicate(ctx, &cli.ReplicateOptions{ParseOptions: &cli.ParseOptions{Input: bytes.NewReader(data)}})
+		return norm(r, err)
+	case "correct":
+		if sch, _ := pl["schema"].(bool); sch {
+			return ""
+		}
+		opts, _ := pl["options"].([]byte)
+		r, err := cli.Correct(ctx, &cli.CorrectOptions{ParseOptions: &cli.ParseOptions{Input: bytes.NewReader(data)}, Data: opts})
+		return norm(r, err)
+	}
+	return ""
 }
 
 type gateWriter struct {
@@ -504,6 +561,9 @@ func execBulk(x *X) {
 				rq := &st.reqs[seq-1]
 				// the oracle: the same request executed alone at this very instant
 				st.expect[seq] = standalone(rq, 0)
+				if d := standaloneDirect(rq, 0); d != "" && d != st.expect[seq] {
+					x.Violate("bulk-differs-from-cli-function:"+rq.Action, "stream %d request %d (%s): a one-request bulk stream and the internal/cli function called directly disagree\n  bulk %s\n  cli  %s", si, seq, rq.Action, trunc(st.expect[seq], 300), trunc(d, 300))
+				}
 				x.Entropy(int(seq) + 1000*si)
 				if rq.Action == "sleep" && rq.SleepNS > 0 {
 					sleepers = append(sleepers, sleeper{time.Now().Add(time.Duration(rq.SleepNS)), name})
@@ -714,6 +774,39 @@ func (x *X) checkStream(st *bulkStream) {
 	}
 	if !inOrder {
 		x.Probe("responses-out-of-arrival-order")
+	}
+	for _, r := range resp {
+		if r.IsFinal || r.SeqID < 1 || r.SeqID > int64(n) {
+			continue
+		}
+		rq := st.reqs[r.SeqID-1]
+		// a signature produced inside a stream must be by the key the request named, else by the stream's default key
+		if rq.Action == "sign" && !r.hasError() {
+			if env, err := ParseEnv(r.Payload); err == nil && len(env.Signatures) > 0 {
+				want := 0
+				if pl, ok := rq.Payload.(map[string]any); ok {
+					if raw, ok := pl["privatekey"].(json.RawMessage); ok {
+						for i := range keyJWK {
+							if string(raw) == PrivKeyJSON(i) {
+								want = i
+							}
+						}
+					}
+				}
+				if err := env.Verify(PubKey(want)); err != nil {
+					x.Violate("sign-wrong-key", "%s: request %d (sign) was to be signed by pool key %d but the returned envelope does not verify with it: %v", where, r.SeqID, want, err)
+				}
+			}
+		}
+		// the indent flag belongs to its own request (checked where the payload reaches us unre-encoded)
+		if r.rawMulti != nil && !r.hasError() && len(r.Payload) > 0 && rq.Action != "schema" && rq.Action != "regime" {
+			tp := bytes.TrimSpace(r.Payload)
+			multi := *r.rawMulti
+			structured := len(tp) > 2 && (tp[0] == '{' || tp[0] == '[') // scalars, null, {} and [] look the same either way
+			if structured && multi != rq.Indent {
+				x.Violate("indent-flag-mispaired", "%s: request %d (%s) had indent=%v but its payload is %s", where, r.SeqID, rq.Action, rq.Indent, map[bool]string{true: "indented", false: "compact"}[multi])
+			}
+		}
 	}
 	for s := int64(1); s <= int64(n); s++ {
 		switch seen[s] {
